@@ -84,7 +84,9 @@ def create_linked_view(project, prefix=None, job_ids=None, path=None):
 
     links = {}
     for job in jobs:
-        paths = os.path.join(path_function(job), "job")
+        # Normalize (e.g. 'a//b' or './a'), links found in an existing view are
+        # compared by their normalized paths.
+        paths = os.path.normpath(os.path.join(path_function(job), "job"))
         if paths in links:
             raise RuntimeError(
                 f"The path '{paths}' is not unique, it would be used for more than "
@@ -93,7 +95,7 @@ def create_linked_view(project, prefix=None, job_ids=None, path=None):
         links[paths] = job.path
     if not links:  # data space contains less than two elements
         for job in project.find_jobs():
-            links["./job"] = job.path
+            links["job"] = job.path
         assert len(links) < 2
 
     # Updating the view will fail on Windows, if symlinks are not enabled.
